@@ -768,7 +768,7 @@ func (db *DB) newTransaction(update, isManaged bool) *Txn {
 		update: update,
 		db:     db,
 		count:  1,                       // One extra entry for BitFin.
-		size:   int64(len(txnKey) + 10), // Some buffer for the extra entry.
+		size:   int64(len(txnKey) + 30), // End-of-txn entry: key+8 (version), up to 20 digits of commit ts, 2 metas.
 	}
 	if update {
 		if db.opt.DetectConflicts {
